@@ -24,7 +24,9 @@ RULE = (
     "chosen by error tag incl. the source itself), on_error_resume_next (factory with observables and error->observable "
     "callables, ops form), while_do / do_while with scripted conditions, and composed forms in which a finite repeat(n) is "
     "re-subscribed (repeat in repeat, retry around repeat, repeat around retry, concat(r, r) of one repeat(n) object, "
-    "while_do / do_while around repeat(n)) so that it must run n times per subscription; subscribed at a generated tick on the virtual "
+    "while_do / do_while around repeat(n)) so that it must run n times per subscription; a quarter to a third of the "
+    "'lists' / 'catch' cases use the shape 'source terminating synchronously inside its own subscribe, followed by a "
+    "source still running when its subscribe returns' for every operator form; subscribed at a generated tick on the virtual "
     "scheduler or through the default CurrentThreadScheduler trampoline. Oracle: (a) closed-form walk over the timelines "
     "gives the exact expected trace (ticks, values, terminal) = concatenation of the consumed sources' elements offset by "
     "the previous terminal's tick; (b) over the subscription logs: the global subscription order and subscribe ticks "
@@ -149,7 +151,7 @@ def model_tree(case):
             tl = tl[min(counts[i], len(tl) - 1)]
             counts[i] += 1
             t = st_["t"]
-            rec = {"src": i, "sub": t, "term": None, "kind": None}
+            rec = {"src": i, "sub": t, "term": None, "kind": None, "tl": tl}
             subs.append(rec)
             for dt, kind, payload in tl:
                 tick = t + dt
@@ -297,7 +299,7 @@ def model(case):
             counts[i] += 1
             tl = _tls(srcs[i])
             tl = tl[min(k_idx, len(tl) - 1)]
-            rec = {"src": i, "sub": t, "term": None, "kind": None}
+            rec = {"src": i, "sub": t, "term": None, "kind": None, "tl": tl}
             subs.append(rec)
             terminal = None
             for dt, kind, payload in tl:
@@ -493,6 +495,13 @@ def _run(case):
             return FAIL(f"subs:continued-on-{t[2]}|{who}", f"s{b['src']} subscribed after s{a['src']} ended with {t[2]} case={case}", classes=cls)
         if t[0] != b["sub"]:
             return FAIL(f"subs:subscribe-tick|{who}", f"s{b['src']} subscribed at {b['sub']}, previous terminal at {t[0]} case={case}", classes=cls)
+    for a, b in zip(exp_subs, exp_subs[1:]):
+        a_sync = case["srcs"][a["src"]]["kind"] == "sync" and a["term"] == a["sub"] and a["kind"] in ("C", "E")
+        b_async = case["srcs"][b["src"]]["kind"] != "sync" or any(m[0] > 0 for m in b["tl"]) or not any(m[1] in ("C", "E") for m in b["tl"])
+        if a_sync and b_async:
+            cls.append("terminal-inside-subscribe-then-async-next")
+            cls.append(f"terminal-inside-subscribe-then-async-next:{op}/{case['form']}")
+            break
     if len(subs) >= 2 and any(a["sub"] == b["sub"] for a, b in zip(subs, subs[1:])):
         cls.append("same-tick-resubscribe")
     if case.get("take") is not None and exp_subs and exp_subs[-1]["kind"] == "cut":
@@ -609,6 +618,76 @@ def _nested(draw):
     return c
 
 
+def _sync_head(draw, term):
+    """Everything at t=0 (delivered inside subscribe by a 'sync' source), ending with `term`."""
+    n = draw(st.sampled_from([0, 1, 2, 1]))
+    return [[0, "N", draw(st.sampled_from(NAMES))] for _ in range(n)] + [[0, term, draw(st.sampled_from(_ERRS)) if term == "E" else None]]
+
+
+def _async_tl(draw, terms):
+    """Still running when its subscribe returns: first event at t >= 1."""
+    tl = draw_timeline(draw, 2, 2, NAMES, list(terms), _ERRS)
+    d = draw(st.integers(1, 3))
+    tl = [[t + d, k, p] for t, k, p in tl]
+    if not tl:
+        tl = [[d, "N", draw(st.sampled_from(NAMES))]]
+    return tl
+
+
+@st.composite
+def _sync_async(draw, fam):
+    """A source that terminates synchronously inside its own subscribe, followed by one that is still running when its
+    subscribe returns.  fam "E": operators continuing on error; fam "C": operators continuing on completion."""
+    term = fam
+    if fam == "E":
+        op, form = draw(st.sampled_from([("catch", "op_handler"), ("catch", "op_handler"), ("catch", "factory"), ("catch", "iter_list"), ("catch", "iter_gen"), ("catch", "op_obs"),
+                                         ("on_error_resume_next", "factory"), ("on_error_resume_next", "op"), ("retry", "arg")]))
+    else:
+        op, form = draw(st.sampled_from([("concat", "factory"), ("concat", "op"), ("concat_with_iterable", "list"), ("concat_with_iterable", "gen"), ("for_in", "list"),
+                                         ("repeat", "arg"), ("on_error_resume_next", "factory"), ("while_do", "op"), ("do_while", "op")]))
+    tail_terms = ("C", "E", "C", "E", None)
+    c = {"op": op, "form": form}
+    if op in ("retry", "repeat", "while_do", "do_while"):
+        k = draw(st.sampled_from([1, 2, 1]))
+        tls = [_sync_head(draw, term) for _ in range(k)] + [_async_tl(draw, tail_terms)]
+        if draw(st.booleans()):
+            tls.append(_sync_head(draw, term))
+            tls.append(_async_tl(draw, tail_terms))
+        c["srcs"] = [{"kind": "sync", "tls": tls}]
+        c["order"] = [0]
+        if op in ("retry", "repeat"):
+            c["n"] = draw(st.sampled_from([2, 3, 4, None]))
+            c["take"] = draw(st.integers(1, 6)) if (c["n"] is None or draw(st.integers(0, 4)) == 0) else None
+        else:
+            c["cond"] = [True] * draw(st.sampled_from([2, 3, 1, 4]))
+    else:
+        srcs = [{"kind": "sync", "tl": _sync_head(draw, term)}, {"kind": draw(st.sampled_from(["cold", "cold", "sync"])), "tl": _async_tl(draw, tail_terms)}]
+        if draw(st.booleans()):
+            srcs.append({"kind": draw(_KIND), "tl": _tl(draw, _MOSTLY_E if fam == "E" else _MOSTLY_C)})
+        order = [0, 1] if draw(st.integers(0, 3)) else [0, 0, 1]
+        if len(srcs) > 2 and form not in ("op_obs", "op", "op_handler"):
+            order.append(draw(st.integers(0, 2)))
+        c["srcs"] = srcs
+        if op == "on_error_resume_next":
+            if form == "op":
+                c["items"] = [0, 1]
+            else:
+                c["items"] = [it if draw(st.integers(0, 2)) else {"none": it, "e1": it, "*": it} for it in order]
+        elif form == "op_handler":
+            c["order"] = [0]
+            nxt = 1 if draw(st.integers(0, 4)) else "src"
+            c["hmap"] = {"e1": nxt, "e2": 1, "*": 1}
+            if nxt == "src":
+                srcs[0] = {"kind": "sync", "tls": [srcs[0]["tl"], _async_tl(draw, tail_terms)]}
+        elif form == "op_obs":
+            c["order"] = [0, 1]
+        else:
+            c["order"] = order
+    for k_, s_ in _COMMON.items():
+        c[k_] = draw(s_)
+    return c
+
+
 @st.composite
 def _catches(draw):
     fam = draw(st.sampled_from(["catch", "catch", "oern"]))
@@ -663,8 +742,8 @@ def checks(tier):
     ex = lambda q: {"quick": q, "thorough": 16 * 10 * q}  # noqa: E731
     sh = {"quick": 4, "thorough": 16}
     return [
-        Check("lists", _run, strategy=_lists(), examples=ex(1400), shards=sh),
+        Check("lists", _run, strategy=st.one_of(_lists(), _lists(), _lists(), _sync_async("C")), examples=ex(1600), shards=sh),
         Check("counts", _run, strategy=st.one_of(_counts(), _nested()), examples=ex(1600), shards=sh),
-        Check("catch", _run, strategy=_catches(), examples=ex(1400), shards=sh),
+        Check("catch", _run, strategy=st.one_of(_catches(), _catches(), _sync_async("E")), examples=ex(1800), shards=sh),
         Check("loops", _run, strategy=_loops(), examples=ex(800), shards=sh),
     ]
